@@ -147,6 +147,11 @@ def region(s, d, a, b, op):
     raise Inconclusive("op " + op)
 
 
+import re as _re
+FUNCTORS = {"plus": "+", "minus": "-", "multiplies": "*"}
+FUNCTOR_RE = _re.compile(r"^std::(plus|minus|multiplies)<.*>::operator\(\)$")
+
+
 class Evaluator:
     def __init__(self, var_ids, env=None, const_env=None, ptr_zero=False):
         """var_ids: set of decl ids that denote the free variable; env: decl id -> init expression.
@@ -163,10 +168,16 @@ class Evaluator:
         if k == "ref":
             if e["d"] in self.var_ids:
                 return [(lo, hi, 1, 0) for lo, hi in S]
+            if e["d"] in self.env:
+                # a pointer-typed local may have been formed from an integer expression (`const void* to = (const void*)target`)
+                if self.ptr_zero and (e.get("t") or {}).get("k") in ("ptr", "fnptr"):
+                    try:
+                        return self.ev(self.env[e["d"]], S)
+                    except Inconclusive:
+                        return [(lo, hi, 0, 0) for lo, hi in S]
+                return self.ev(self.env[e["d"]], S)
             if self.ptr_zero and (e.get("t") or {}).get("k") in ("ptr", "fnptr"):
                 return [(lo, hi, 0, 0) for lo, hi in S]
-            if e["d"] in self.env:
-                return self.ev(self.env[e["d"]], S)
             raise Inconclusive("reference to %s" % e.get("n"))
         if self.ptr_zero and k == "call" and (e.get("t") or {}).get("k") in ("ptr", "fnptr"):
             return [(lo, hi, 0, 0) for lo, hi in S]
@@ -208,6 +219,11 @@ class Evaluator:
             T = self.sat(e, S)
             F = complement(T, S)
             return sorted([(lo, hi, 0, 1) for lo, hi in T] + [(lo, hi, 0, 0) for lo, hi in F])
+        if k == "call" and FUNCTOR_RE.match((e.get("fn") or {}).get("n") or "") and len(e.get("args") or []) in (2, 3):
+            # transparent standard functor: the plain operator on its operands (the first argument of a member call is the object)
+            a = e["args"][-2:]
+            op = FUNCTORS[FUNCTOR_RE.match(e["fn"]["n"]).group(1)]
+            return self.ev({"k": "bin", "op": op, "l": a[0], "r": a[1], "t": e.get("t"), "loc": e.get("loc")}, S)
         if k == "sizeof" and "cv" in e:
             return [(lo, hi, 0, int(e["cv"])) for lo, hi in S]
         raise Inconclusive("expression kind %s%s" % (k, (" " + e.get("op", "")) if k in ("bin", "un") else ""))
